@@ -90,7 +90,14 @@ def gen(rng):
           'synsets': [syn('xe', 'p', 'j1', tops), syn('xe', 'q', 'j2', tops)] + [syn('xe', t_, 'j-' + t_, ['root']) for t_ in tops] + [syn('xe', 'root', 'j-root')]}
     xl = {'id': 'xl', 'version': '1', 'label': 'local', 'language': 'de', 'email': 'a@b.c', 'license': 'L', 'meta': None,
           'synsets': [syn('xl', 'p', 'j1'), syn('xl', 'q', 'j2')] + ([syn('xl', 'root', 'j-root')] if rng.random() < 0.5 else [])}
-    return {'resources': [docs.resource([W['a:1'], W['e:1'], W['b:1'], m], '1.0'), docs.resource(provs + [dx, dy, xe, xl], '1.1')],
+    # a second version of the local lexicon with the same synset ids and ILIs (its root always present): stored
+    # synsets that tie on id and ILI are common hypernyms of the same pair
+    import copy
+    xl2 = copy.deepcopy(xl)
+    xl2['version'] = '2'
+    if not any(y['id'] == 'xl-root' for y in xl2['synsets']):
+        xl2['synsets'].append(syn('xl', 'root', 'j-root'))
+    return {'resources': [docs.resource([W['a:1'], W['e:1'], W['b:1'], m], '1.0'), docs.resource(provs + [dx, dy, xe, xl, xl2], '1.1')],
             'graph': g, 'corpus': ['w0', 'w1', 'amb', 'amb', 'w2', 'zzz'], 'broken': broken, 'dumpres': dumpres, 'queries': queries,
             'selections': [{}, {'lexicon': 'a:1'}, {'lexicon': 'b:1', 'expand': 'e:1'}, {'lexicon': 'b:1', 'expand': ''}, {'lang': 'en'}, {'lang': 'de'}]}
 
